@@ -191,7 +191,9 @@ CLAIMED = {
              'a request following the published schema is never refused with -32602 by binding and one that omits a required or adds an unlisted '
              'name (the context parameter included) always is. Correspondence: OpenAPI 3.0/3.1 and OpenRPC documents are REALLY generated for every '
              'signature / context position / function, coroutine, view method, their properties and required lists read out, and every params '
-             'object over subsets of (names + undocumented + context) dispatched.',
+             'object over subsets of (names + undocumented + context) dispatched. The same holds (theorems C17_names_general / '
+             'C17_sound_and_complete_general) for ANY set of injected or excluded names, and the correspondence includes an exclusion predicate shared '
+             'by validator and schema extractor over every non-empty subset of the defaulted parameters.',
         note='trusted: Coq kernel + vm_compute; the extractor filter and inspect.Signature.bind as transcribed (validated on the enumerated signatures); '
              'pydantic lists exactly the declared fields with required = no default (oracle, checked on every case); parameters are unannotated.',
         technique='Coq proof (bind succeeds iff keys within documented names and covering the required ones, induction over signatures) + correspondence on generated documents',
@@ -216,6 +218,9 @@ CLAIMED = {
              'properties / required / additionalProperties / items fragment) means what the keywords say; the excluded (context) '
              'parameter is never part of what is validated and cannot be supplied; with the type validator every bound argument must be '
              'accepted, without coercion the arguments are unchanged, with coercion the body receives exactly the converted values. '
+             'Exclusion predicate (exclude_param): under every validator the selected parameters are removed from what is bound and validated, '
+             'naming one is -32602 without running, and (no context) the call is a direct call of the function the client sees with the excluded '
+             'parameters at their own defaults (C14_predicate_*). '
              'Correspondence: end-to-end dispatch through validated methods; js_valid cross-checked against the jsonschema package and the '
              'pydantic verdicts taken from pydantic.TypeAdapter independently of pjrpc on every case.',
         note='PARTIAL: jsonschema\'s and pydantic\'s own semantics are oracles (jsonschema cross-checked on the fragment; pydantic conversions '
@@ -230,11 +235,12 @@ CLAIMED = {
              'resolves; the lists a user passed to annotate() are returned untouched and repeating the generation yields the identical document. '
              'Correspondence: OpenAPI 3.0.3 / 3.1.0 and OpenRPC documents are really generated for random method sets, annotation combinations '
              '(incl. one errors list shared between methods), extractor stacks, endpoint prefixes and 1..3 repeated generations; keys, documented '
-             'error codes per method, documented method names, reference closure, own-prefix of references, user-list snapshots and document '
+             'error codes per method, documented method names, documented parameter names against the function\'s own signature (pydantic-first stacks), reference closure, own-prefix of references, user-list snapshots and document '
              'digests are judged in Coq; JSON-encodability and meta-schema validity are tests run on every document.',
         note='PARTIAL, said plainly: pydantic\'s schema generator, docstring_parser and the three official meta-schemas are not modelled; validity and '
              'encodability are tests. Known finding F18 (OpenAPI 3.0.x documents use `const`) suppresses exactly the cases whose only failure is the '
-             '3.0 meta-schema test. OpenRPC documents describe the main endpoint only (interpretation recorded in DESIGN.md). trusted: Coq kernel + vm_compute.',
+             '3.0 meta-schema test; known finding F20 (two different functions exposed under one method name at two endpoints with the same '
+             'component prefix overwrite each other\'s components) suppresses exactly the cases whose only failure is the parameter list of such colliding entries. OpenRPC documents describe the main endpoint only (interpretation recorded in DESIGN.md). trusted: Coq kernel + vm_compute.',
         technique='Coq proof (fold/dict lemmas over the assembler loop: completeness, isolation, closure, purity) + correspondence on really generated documents',
         design='6 C16'),
 }
